@@ -1,6 +1,7 @@
 import OtelVerif.Lemmas.RelAcqSpin
 import OtelVerif.Lemmas.RelAcqSlot
 import OtelVerif.Lemmas.RingStale
+import OtelVerif.Lemmas.RelAcqHeadTail
 import OtelVerif.Lemmas.Pigeon
 /-! # C11, weak-memory part: the spin lock and the ring's slot hand-off under the C++ memory orders actually written
 
@@ -13,9 +14,10 @@ threads, no bound on steps** -
   critical section reads exactly what the previous one wrote;
 * (b) the slot hand-off (`Model/RelAcqSlot.lean`): whoever gets a pointer out of a slot by `exchange` reads the payload
   without a data race and sees what the producer wrote, the producer's own undo path included;
-* (c) `gen_orders_sufficient`: the orders in the source satisfy the preconditions of (a) and (b); and what the SC
-  theorems need of the loads of `head_` / `tail_` in `Add` (`Model/RingStale.lean`): nothing for safety, a visibility
-  assumption for the failure justification.
+* (c) `gen_orders_sufficient`: the orders in the source satisfy the preconditions of (a), (b) and of
+  `headtail_pairs_ordered` (every pair (tail, head) that `Add` reads has `tail ≤ head`); and what the SC theorems need of
+  the loads of `head_` / `tail_` in `Add` (`Model/RingStale.lean`): nothing for safety, a visibility assumption for the
+  failure justification.
 
 Each of (a), (b) comes with kernel-checked executions showing that a weakened order does produce a data race. -/
 namespace Otel.C11Mem
@@ -24,9 +26,10 @@ open Otel Otel.RelAcq
 /-! ## (c) the orders in the source are the ones the proofs need -/
 
 /-- both `flag_.exchange` are acquire or stronger and `unlock`'s store is release or stronger; `SwapIfNull`'s successful
-    compare_exchange is release or stronger and the exchanges of `Swap` / `Reset` are acquire or stronger.  Weakening any
-    of them in the source makes this `decide` fail. -/
-theorem gen_orders_sufficient : Spin.genOrders.ok = true ∧ Slot.genOrders.ok = true := by decide
+    compare_exchange is release or stronger and the exchanges of `Swap` / `Reset` are acquire or stronger; `tail_ += n` is
+    release or stronger and `Add`'s load of `tail_` acquire or stronger.  Weakening any of them in the source makes this
+    `decide` fail. -/
+theorem gen_orders_sufficient : Spin.genOrders.ok = true ∧ Slot.genOrders.ok = true ∧ HT.genOrders.ok = true := by decide
 
 /-- the orders the source has at the time of writing (the demonstrations and witnesses below use these fixed records, not
     the generated ones, so that a *strengthened* order in the source changes nothing but `Gen/MemOrder.lean`) -/
@@ -180,7 +183,7 @@ end slot
 /-- (b) for the orders in the source -/
 theorem slot_gen_race_free (acts : List Slot.Act) (s : Slot.St) (h : Slot.run Slot.genOrders Slot.init acts = some s) :
     s.m.race = false ∧ ∀ t e v, (t, e, v) ∈ s.seen → v = Slot.content e :=
-  ⟨slot_no_data_race gen_orders_sufficient.2 h, slot_reads_initialised gen_orders_sufficient.2 h⟩
+  ⟨slot_no_data_race gen_orders_sufficient.2.1 h, slot_reads_initialised gen_orders_sufficient.2.1 h⟩
 
 /-- satisfiable, with both paths: producer 0 publishes element 0 into slot 0, its `head_` CAS fails, it takes the
     element back (`undo`), reads it, publishes it again into slot 1 and commits; thread 1 takes it out with `Reset`, reads
@@ -226,12 +229,71 @@ theorem slot_weakened_not_race_free :
 example : (Slot.run { casOk := .rlx, casFail := .rlx, swapX := .rlx, resetX := .rlx } Slot.init
     [.start 0, .init 0, .casOk 0 0, .undo 0, .chk 0]).map (fun s => (s.m.race, s.seen)) = some (false, [(0, 0, 1)]) := by decide
 
+/-! ## the pairs (tail, head) that `Add` can read (`Model/RelAcqHeadTail.lean`)
+
+`Add` computes `head - tail` in `uint64_t`; a pair with `head < tail` would wrap around.  Both loads may be stale, but the
+consumer writes `tail_ = v` (release) only after it has read `head_ ≥ v`, and an acquire load of that `tail_` message
+brings the consumer's view of `head_` along: whatever `head_` message the producer reads next is at least as new. -/
+
+section headtail
+open HT
+variable {o : HT.Orders} (hok : o.ok = true) {acts : List HT.Act} {s : HT.St} (h : HT.run o HT.init acts = some s)
+include hok h
+
+/-- **every pair `Add` reads has `tail ≤ head`**, for every interleaving, every read choice, any number of producers -/
+theorem headtail_pairs_ordered (t hd : Nat) (hx : (t, hd) ∈ s.pairs) : t ≤ hd :=
+  (HT.inv_run o hok _ _ acts HT.inv_init h).pairsOk _ hx
+
+/-- message `k` of `head_` has value `k`: a stale load of `head_` returns an earlier count of commits, never garbage -/
+theorem headtail_head_messages_count (k : Nat) (msg : Msg) (hk : (s.m.atom headL)[k]? = some msg) : msg.val = k :=
+  (HT.inv_run o hok _ _ acts HT.inv_init h).headIdx k msg hk
+
+end headtail
+
+theorem headtail_gen_pairs_ordered (acts : List HT.Act) (s : HT.St) (h : HT.run HT.genOrders HT.init acts = some s)
+    (t hd : Nat) (hx : (t, hd) ∈ s.pairs) : t ≤ hd := headtail_pairs_ordered gen_orders_sufficient.2.2 h t hd hx
+
+def htSrc : HT.Orders := { addLoadTail := .sc, addLoadHead := .sc, headCas := .rel, faddTail := .sc, peekLoadHead := .sc }
+
+/-- producer 1 commits one element, the consumer consumes it (`tail_ = 1`), producer 2 reads the new `tail_ = 1` and then
+    a **stale** `head_` - which the acquire load of `tail_` rules out: the action is not enabled -/
+def htRun : List HT.Act := [.pLdTail 1 0, .pLdHead 1 0, .pCas 1, .cLdHead 1, .cFadd 1, .pLdTail 2 1, .pLdHead 2 0]
+
+example : (HT.run htSrc HT.init htRun).isNone = true := by decide
+example : (HT.run htSrc HT.init (htRun.take 6 ++ [.pLdHead 2 1])).map (fun s => s.pairs) = some [(1, 1), (0, 0)] := by decide
+example : (HT.run HT.genOrders HT.init (htRun.take 6 ++ [.pLdHead 2 1])).isSome = true := by decide
+/-- staleness that is allowed: producer 2 reads the old `tail_ = 0` and the old `head_ = 0` after all that -/
+example : (HT.run htSrc HT.init (htRun.take 5 ++ [.pLdTail 2 0, .pLdHead 2 0])).map (fun s => s.pairs) = some [(0, 0), (0, 0)] := by decide
+
+/-- `Add`'s load of `tail_` relaxed: the same schedule now reads the pair (tail, head) = (1, 0) -/
+theorem headtail_relaxed_tail_load_witness :
+    (HT.run { htSrc with addLoadTail := .rlx } HT.init htRun).map (fun s => s.pairs) = some [(1, 0), (0, 0)] := by decide
+
+/-- `tail_ += n` relaxed: the same -/
+theorem headtail_relaxed_fadd_witness :
+    (HT.run { htSrc with faddTail := .rlx } HT.init htRun).map (fun s => s.pairs) = some [(1, 0), (0, 0)] := by decide
+
+theorem headtail_weakened_not_ordered :
+    ¬ (∀ (o : HT.Orders) (acts : List HT.Act) (s : HT.St), HT.run o HT.init acts = some s → ∀ x ∈ s.pairs, x.1 ≤ x.2) := by
+  intro hall
+  cases hr : HT.run { htSrc with addLoadTail := .rlx } HT.init htRun with
+  | none => have := headtail_relaxed_tail_load_witness; rw [hr] at this; cases this
+  | some s =>
+    have h1 := hall _ _ s hr
+    have h2 := headtail_relaxed_tail_load_witness
+    rw [hr] at h2
+    simp only [Option.map_some, Option.some.injEq] at h2
+    rw [h2] at h1
+    exact absurd (h1 (1, 0) (by simp)) (by decide)
+
 /-! ## (c, second part) what the SC theorems need of the loads of `head_` / `tail_` in `Add`
 
 `Add` loads `tail_` and `head_` (both `seq_cst` loads in the source), but the writes they read from are the `release`
 CAS of `head_` and the consumer's `tail_ += n`: in the C++ model the loads may return an **older** value of either
 counter (`load_le_latest`: never a larger one, both counters only grow and are written by RMWs only, `rmw_mono`).
-`Model/RingStale.lean` lets them return *any* older value.  The invariants of `Props/C11.lean` survive
+`Model/RingStale.lean` lets them return *any* older value - also pairs with `head < tail`, which
+`headtail_pairs_ordered` shows no execution with the orders in the source produces (the two models are not coupled
+formally: `RingStale` simply over-approximates).  The invariants of `Props/C11.lean` survive
 (`stale_reachable_inv`), hence every **safety** theorem of C11 needs nothing of these loads.  What staleness costs is
 precision of `add_fails_only_when_full` (a spurious "full": `stale_spurious_full_witness`) and extra retries (a stale
 `head` sends the producer to a slot that is occupied, or makes its `head_` CAS fail: both are the model's retry
@@ -319,7 +381,7 @@ theorem stale_undo_takes_own_element (p hh : Nat) (hpc : pcOf s p = .cas hh ∨ 
   (RingStale.reachable_inv cap hc as s h).1.tentSlot p _ ⟨hh, hpc, rfl⟩
 
 /-- **failure justification, as far as it survives** (`…_partial` of `add_fails_only_when_full`): when the full test
-    succeeds on a pair of values read with `t ≤ h`, the number of `Add` calls begun before this return, itself excluded,
+    succeeds on a pair of values read with `t ≤ h` (every pair is: `headtail_pairs_ordered`), the number of `Add` calls begun before this return, itself excluded,
     minus the consumption the producer has *seen* (`c0` = the smaller of the consumption when the call began and the
     `tail_` value it read) is at least `max_size`.  The SC statement has the consumption when the call began instead; it
     follows when the tail value read is not older than that (`c0Of` is then unchanged), which sequential consistency
